@@ -95,6 +95,21 @@ fn compare_country(c: Country, public: &Files, school: &Files, thorough: bool, o
             }
             d = d.succ_opt().unwrap();
         }
+        // first_after (what the PH / SH hints use) agrees with the file from every listed date, its neighbours and a
+        // few far-away dates
+        let far = [(1900, 1, 1), (1998, 12, 31), (1999, 1, 1), (2075, 12, 31), (2076, 1, 1), (2200, 6, 1), (9999, 12, 31), (1, 1, 1), (-1, 6, 1)];
+        let mut queries: Vec<NaiveDate> = far.iter().filter_map(|(y, m, d)| NaiveDate::from_ymd_opt(*y, *m, *d)).collect();
+        for ld in file {
+            queries.extend([ld.pred_opt(), Some(*ld), ld.succ_opt()].into_iter().flatten());
+        }
+        for q in queries {
+            out.checks += 1;
+            use std::ops::Bound::*;
+            let want = file.range((Excluded(q), Unbounded)).next().copied();
+            if cal.first_after(q) != want {
+                out.bad(format!("{code} {name}: first_after({q}) = {:?}, file says {want:?}", cal.first_after(q)));
+            }
+        }
         // every listed date and its neighbours, wherever they are
         for ld in file {
             for d in [ld.pred_opt(), Some(*ld), ld.succ_opt()].into_iter().flatten() {
@@ -242,7 +257,12 @@ fn compare_codes(public: &Files, school: &Files, out: &mut Out) {
         }
     }
     for c in &codes {
-        for near in [format!(" {c}"), format!("{c} "), c.to_lowercase(), format!("{c}\0"), format!("{c}{c}"), format!("\u{feff}{c}")] {
+        let full_width: String = c.chars().map(|ch| char::from_u32(ch as u32 - 'A' as u32 + 0xFF21).unwrap_or(ch)).collect();
+        for near in [
+            format!(" {c}"), format!("{c} "), c.to_lowercase(), format!("{c}\0"), format!("{c}{c}"), format!("\u{feff}{c}"),
+            format!("{c}A"), format!("{c}\n"), format!("{c}\u{200b}"), format!("{c}-"), format!("{c}-XX"), format!("{c}_{c}"), format!("{c};"), full_width,
+            format!("{}{}", &c[..1], &c[1..].to_lowercase()), format!("{}.{}", &c[..1], &c[1..]),
+        ] {
             out.checks += 1;
             if near.parse::<Country>().is_ok() {
                 out.bad(format!("near-miss {near:?} accepted"));
@@ -252,6 +272,53 @@ fn compare_codes(public: &Files, school: &Files, out: &mut Out) {
         }
     }
     let _ = rejected;
+}
+
+/// the same country asked for very many times (counters, promotion thresholds), and countries inferred from coordinates
+fn compare_repeats_and_coords(public: &Files, school: &Files, out: &mut Out) {
+    use opening_hours::localization::Coordinates;
+    let dg = |c: Country| -> (Vec<NaiveDate>, Vec<NaiveDate>) {
+        let h = c.holidays();
+        (h.get_public().iter().collect(), h.get_school().iter().collect())
+    };
+    let empty = BTreeSet::new();
+    for c in [Country::FR, Country::US, Country::ZW] {
+        let want: (Vec<NaiveDate>, Vec<NaiveDate>) = (public.get(c.iso_code()).unwrap_or(&empty).iter().copied().collect(), school.get(c.iso_code()).unwrap_or(&empty).iter().copied().collect());
+        let mut kept = Vec::new();
+        for i in 0..70_000u32 {
+            let h = c.holidays();
+            if i % 4096 == 0 || i.is_power_of_two() || i > 69_990 {
+                out.checks += 1;
+                if dg(c) != want {
+                    out.bad(format!("{}: after {i} requests the calendars differ from the file", c.iso_code()));
+                    break;
+                }
+            }
+            if i % 1000 == 0 {
+                kept.push(h);
+            }
+        }
+        for (k, h) in kept.iter().enumerate() {
+            out.checks += 1;
+            if h.get_public().iter().collect::<Vec<_>>() != want.0 {
+                out.bad(format!("{}: the calendar handed out at request {} changed afterwards", c.iso_code(), k * 1000));
+                break;
+            }
+        }
+    }
+    // a country inferred from coordinates gets that country's calendars
+    for (lat, lon, code) in [(48.8566, 2.3522, "FR"), (52.52, 13.405, "DE"), (40.7128, -74.006, "US"), (35.6762, 139.6503, "JP"), (-33.8688, 151.2093, "AU"), (51.5074, -0.1278, "GB"), (-23.5505, -46.6333, "BR"), (55.6761, 12.5683, "DK"), (19.4326, -99.1332, "MX"), (-26.2041, 28.0473, "ZA"), (64.1466, -21.9426, "IS"), (52.3676, 4.9041, "NL")] {
+        out.checks += 1;
+        let Some(co) = Coordinates::new(lat, lon) else { continue };
+        let ctx = Context::from_coords(co);
+        let got: (Vec<NaiveDate>, Vec<NaiveDate>) = (ctx.holidays.get_public().iter().collect(), ctx.holidays.get_school().iter().collect());
+        let want: (Vec<NaiveDate>, Vec<NaiveDate>) = (public.get(code).unwrap_or(&empty).iter().copied().collect(), school.get(code).unwrap_or(&empty).iter().copied().collect());
+        if Country::try_from_coords(co).map(|c| c.iso_code()) != Some(code) {
+            out.bad(format!("coordinates ({lat}, {lon}) are inferred as {:?}, expected {code}", Country::try_from_coords(co)));
+        } else if got != want {
+            out.bad(format!("Context::from_coords({lat}, {lon}) carries calendars that differ from {code}'s in the files"));
+        }
+    }
 }
 
 fn order(name: &str) -> Vec<Country> {
@@ -306,6 +373,9 @@ fn schedule(name: &str, public: &Files, school: &Files, thorough: bool) -> (u64,
                 compare_selectors(c, public, school, thorough, &mut out);
             }
             compare_codes(public, school, &mut out);
+            if name == "S1_first_country_first" {
+                compare_repeats_and_coords(public, school, &mut out);
+            }
         }
     }
     (out.checks, out.mismatches)
